@@ -2373,14 +2373,27 @@ class _Itertools:
     def combinations(it, r):
         items = ITER(it)
         if not all(g == TRUE for g, _ in items):
-            raise Unsupported('combinations over guarded')
+            # guarded elements: a combination is present iff all of its members are (order of the survivors is kept)
+            d = E.dag
+            out = []
+            for combo in _it.combinations(items, r):
+                g = d.all_(g for g, _ in combo)
+                if g != FALSE:
+                    out.append((g, tuple(v for _, v in combo)))
+            return GList._guarded(out)
         return list(_it.combinations([v for _, v in items], r))
 
     @staticmethod
     def combinations_with_replacement(it, r):
         items = ITER(it)
         if not all(g == TRUE for g, _ in items):
-            raise Unsupported('combinations over guarded')
+            d = E.dag
+            out = []
+            for combo in _it.combinations_with_replacement(items, r):
+                g = d.all_(g for g, _ in combo)
+                if g != FALSE:
+                    out.append((g, tuple(v for _, v in combo)))
+            return GList._guarded(out)
         return list(_it.combinations_with_replacement([v for _, v in items], r))
 
     @staticmethod
